@@ -1,10 +1,10 @@
 package main
 
 import (
-	"sort"
 	"fmt"
 	"go/token"
 	"go/types"
+	"sort"
 	"strings"
 
 	"golang.org/x/tools/go/ssa"
@@ -313,7 +313,65 @@ func checkC11(c *Ctx) {
 			}
 			bad := false
 			nTrue := 0
+			// the verdict may be slices.ContainsFunc(allowed, pred) with pred a constant-time match on the token
+			type predCmp struct {
+				call *ssa.Call
+				mc   *ssa.MakeClosure
+				fn   *ssa.Function
+			}
+			var predCmps []predCmp
+			var isMatchAny func(v ssa.Value) bool
+			isMatchAny = func(v ssa.Value) bool {
+				call, ok := v.(*ssa.Call)
+				if !ok || len(call.Call.Args) != 2 {
+					return false
+				}
+				g := call.Call.StaticCallee()
+				if g == nil || g.Origin() == nil || g.Origin().Pkg == nil || g.Origin().Pkg.Pkg.Path() != "slices" || g.Origin().Name() != "ContainsFunc" {
+					return false
+				}
+				ts := funcValueTargets(call.Call.Args[1], 0)
+				if len(ts) == 0 {
+					return false
+				}
+				for _, t := range ts {
+					if !trueOnlyOnConstantTimeMatch(p, t) {
+						// a predicate over the presented values that itself answers with a match over the allowlist
+						nested := true
+						nRet := 0
+						for _, r2 := range returnsOf(p.View(t)) {
+							if len(r2.Results) != 1 {
+								nested = false
+								continue
+							}
+							nRet++
+							if cst, ok := r2.Results[0].(*ssa.Const); ok && cst.Value != nil && cst.Value.String() == "false" {
+								continue
+							}
+							if !isMatchAny(r2.Results[0]) {
+								nested = false
+							}
+						}
+						if !nested || nRet == 0 {
+							return false
+						}
+					}
+					mc, _ := call.Call.Args[1].(*ssa.MakeClosure)
+					for _, cc := range allCalls(t, func(ci ssa.CallInstruction) bool {
+						return calleeIs(ci, "crypto/subtle", "", "ConstantTimeCompare") || calleeIs(ci, "crypto/hmac", "", "Equal")
+					}) {
+						if c2, ok := cc.(*ssa.Call); ok {
+							predCmps = append(predCmps, predCmp{c2, mc, t})
+						}
+					}
+				}
+				return true
+			}
 			for _, r := range returnsOf(fn) {
+				if len(r.Results) == 1 && isMatchAny(r.Results[0]) {
+					nTrue++
+					continue
+				}
 				if !blockReturnsConstBool(r.Block(), true) {
 					if cst, ok := r.Results[0].(*ssa.Const); !ok || cst.Value.String() != "true" {
 						if _, isConst := r.Results[0].(*ssa.Const); !isConst {
@@ -330,7 +388,25 @@ func checkC11(c *Ctx) {
 				}
 			}
 			// the compared value is the whole presented token: arg0 of ConstantTimeCompare derives from a []byte conversion of the token string
-			okWhole := len(cmp) > 0
+			okWhole := len(cmp) > 0 || len(predCmps) > 0
+			for _, pc := range predCmps {
+				// the presented token inside the predicate is a captured variable: look at what was captured
+				for _, arg := range pc.call.Call.Args {
+					v := arg
+					if fv, ok := arg.(*ssa.FreeVar); ok && pc.mc != nil {
+						for i, f2 := range pc.fn.FreeVars {
+							if f2 == fv && i < len(pc.mc.Bindings) {
+								v = pc.mc.Bindings[i]
+							}
+						}
+					}
+					for _, s := range sourcesOf(v) {
+						if s.Kind == "transform" && s.Desc == "reslice" {
+							okWhole = false
+						}
+					}
+				}
+			}
 			for _, e := range cmp {
 				a, _ := edgeAtom(e)
 				call := a.X.(*ssa.Call)
@@ -620,6 +696,15 @@ func checkTokenProvenance(c *Ctx, rule string) {
 				}
 				if _, isB := call.Call.Value.(*ssa.Builtin); isB {
 					continue
+				}
+				if g := call.Call.StaticCallee(); g != nil {
+					o := g
+					if g.Origin() != nil {
+						o = g.Origin()
+					}
+					if o.Pkg != nil && (o.Pkg.Pkg.Path() == "bytes" || o.Pkg.Pkg.Path() == "slices") && o.Name() == "Clone" {
+						continue // a copy, byte for byte
+					}
 				}
 				for _, a := range call.Call.Args {
 					if dependsOn(a, prm, map[ssa.Value]bool{}) && bad == "" {
